@@ -10,6 +10,7 @@ import sys
 import time
 
 from . import gen
+from . import state_inventory
 
 VERIF = os.path.dirname(os.path.dirname(os.path.abspath(__file__)))
 LEAN = os.path.join(VERIF, "lean")
@@ -709,6 +710,10 @@ def check_property(prop, tier, seed, max_search=20000):
             write_evidence(res)
             return res
 
+    # 2b. static part of the tie: the state the code can carry must be the state the model has
+    static_breaks = [] if prop in ("C18", "C19") else state_inventory.check()
+    cov["state_inventory"] = "matches the model's Ctx" if not static_breaks else static_breaks
+
     # 3. generate and run
     pairs = []
     corpus = os.path.join(VERIF, "corpus", prop + ".txt")
@@ -922,6 +927,18 @@ def check_property(prop, tier, seed, max_search=20000):
                               "projection_impl": repr(project(prop, lines[i0], results[i0][0]))[:500],
                               "projection_model": repr(project(prop, lines[i0], results[i0][1]))[:500]})
             violation(p, " no-failing-input-found")
+
+    if static_breaks and not res.violations:
+        # the code has state the model does not have (or lost some): proofs about histories no longer
+        # transfer; no failing input was found by this run
+        p = write_replay(prop, "state-shape", [], -1, None, None,
+                         "the code's state no longer matches the model's context: " + "; ".join(static_breaks)[:1500],
+                         {"static_differences": static_breaks, "theorems_resting_on_model": thm["theorems"],
+                          "note": "checker/state_inventory.py compares the fields of the three context structs and every static / Cell / "
+                                  "atomic / unsafe construct in the non-test source with the inventory the model was written against"})
+        violation(p, " no-failing-input-found")
+    elif static_breaks:
+        res.notes.append("NOTE: the code's state also differs from the model's context: " + "; ".join(static_breaks)[:300])
 
     for fid, text in known.items():
         if fid in res.known_hit:
